@@ -57,8 +57,11 @@ class _Only:
 def run(ctx):
     prog = ctx.prog
     for r, t in [("R1", "one digest for sign / verify / recover: content_addr of the given contract"), ("R2", "malformed signatures are errors: no reachable unreviewed panic site"),
-                 ("R3", "verification precedes acceptance"), ("R4", "word encodings shared with the VM's recovery op")]:
+                 ("R3", "verification precedes acceptance"), ("R4", "word encodings shared with the VM's recovery op"),
+                 ("R5", "the signed digest commits to every predicate: the predicate encoding behind each predicate address is total up to the documented limits and laid out as decoded (C17 R3)")]:
         ctx.rule(r, t)
+    from .. import hashing as H_
+    H_.layout(ctx, "R5")
     for name, arg, leaf in [("sign", "contract", "sign_hash"), ("verify", "signed.contract", "verify_hash"), ("recover", "signed.contract", "recover_hash")]:
         f = prog.fn(S + "contract::" + name)
         if not ctx.anchor("R1", "fn contract::" + name, f):
